@@ -80,6 +80,16 @@ CLAIMED["C02"] = dict(text="Bounded symbolic model checking of the real parsers 
                   "compared in both directions (interactions, edges, attributes, atoms).",
              design="DESIGN.md 4/C02", technique="symbolic execution of the real Python code with z3 (symx): symbolic residue-id offset, selectors for structure; per-entry reference rules",
              note="the catalogue (13 link families + 6 dangling forms) bounds the link definitions; explicit by_atom_id links and callable parameters are outside; <= 3 (quick) / 4 (thorough) residues. " + NOTE_COMMON)
+CLAIMED["C10"] = dict(text="Bounded symbolic model checking of the real find_missing_edges/find_connecting_edges after the real MapToMolecule+ApplyLinks with additional "
+                  "atom-level edges injected through symbolic booleans (recount oracle, both directions), of the warnings of the real gen_params against the "
+                  "bonds of the written .itp, and of the connectivity gate _check_molecules on topologies with a solver-chosen missing bond and molecule layout.",
+             design="DESIGN.md 4/C10", technique="symbolic execution of the real Python code with z3 (symx): symbolic booleans for inter-residue edges, selectors for graphs and layouts",
+             note="residue graphs of <= 4 residues, blocks of <= 2 atoms; atoms disconnected inside one residue are outside the gate named in the anchors. " + NOTE_COMMON)
+CLAIMED["C13"] = dict(text="Metamorphic bounded symbolic model checking: the real pipeline is run on an input and on a transformed copy inside one path (node keys, insertion "
+                  "order, edge orientation/order, definition and file order; multi-residue fragments), and the real gen_params is re-run after solver-chosen "
+                  "histories of other calls in the same process; outputs are compared canonically / byte-wise.",
+             design="DESIGN.md 4/C13", technique="symbolic execution of the real Python code with z3 (symx); selector-driven metamorphic comparison, real files for the history condition",
+             note="no oracle is needed (the code is compared with itself); residue graphs of <= 3 (quick) / 4 (thorough) residues; histories of <= 2 preceding runs; hash randomisation across processes is outside. " + NOTE_COMMON)
 NOT_YET = {}
 def main():
     props = [json.loads(l) for l in open(os.path.join(ROOT, "properties.jsonl"))]
